@@ -259,8 +259,10 @@ def _ts(MaxNodes, MaxNest, Vals, DocNames, AllCaps, WithInvalid="TRUE", Roots="R
 
 NAV_STAGES = {
     "C06": {"quick":    [("nav", _nav(4, 3, "ValsInt1", "NamesAB", "LookAB", "OpsNavE", "RootsOA")),
-                         ("nav-history-2", _nav(3, 3, "ValsInt1", "NamesAB", "LookAB", "OpsNav", "RootsOA", HistK=2))],
+                         ("nav-history-2", _nav(3, 3, "ValsInt1", "NamesAB", "LookAB", "OpsNav", "RootsOA", HistK=2)),
+                         ("nav-deep-nesting", _nav(6, 5, "ValsInt1", "NamesA", "LookAB", "OpsNav", "RootsO", 5))],
             "thorough": [("nav", _nav(5, 4, "ValsInt1", "NamesAB", "LookAB", "OpsNavE", "RootsOA")),
+                         ("nav-deep-nesting", _nav(7, 6, "ValsInt1", "NamesA", "LookAB", "OpsNav", "RootsOA", 6)),
                          ("nav-history-2", _nav(4, 3, "ValsInt1", "NamesAB", "LookAB", "OpsNav", "RootsOA", HistK=2)),
                          ("nav-mixed-values", _nav(4, 3, "ValsMix", "NamesAB", "LookAB", "OpsNavE", "RootsOA"))]},
     "C03": {"quick":    [("values-names", _nav(2, 2, "ValsAll", "NamesRich", "LookAB", "OpsNav", "RootsOA")),
@@ -288,8 +290,10 @@ NAV_STAGES = {
                          ("transcribe-values", _nav(3, 3, "ValsAll", "NamesRich", "LookAB", "OpsTrans", "RootsOA", 10)),
                          ("transcribe-reused-parser", _nav(5, 3, "ValsInt1", "NamesAB", "LookAB", "OpsReuseX", "RootsOA"))]},
     "C11": {"quick":    [("raw", _nav(4, 3, "ValsInt1", "NamesAB", "LookAB", "OpsNav", "RootsOA")),
-                         ("raw-history-2", _nav(3, 3, "ValsInt1", "NamesAB", "LookAB", "OpsNav", "RootsOA", HistK=2))],
+                         ("raw-history-2", _nav(3, 3, "ValsInt1", "NamesAB", "LookAB", "OpsNav", "RootsOA", HistK=2)),
+                         ("raw-deep-nesting", _nav(6, 5, "ValsInt1", "NamesA", "LookAB", "OpsNav", "RootsO", 5))],
             "thorough": [("raw", _nav(5, 4, "ValsInt1", "NamesAB", "LookAB", "OpsNav", "RootsOA")),
+                         ("raw-deep-nesting", _nav(7, 6, "ValsInt1", "NamesA", "LookAB", "OpsNav", "RootsOA", 6)),
                          ("raw-history-2", _nav(4, 3, "ValsInt1", "NamesAB", "LookAB", "OpsNav", "RootsOA", HistK=2)),
                          ("raw-lookup", _nav(4, 3, "ValsMix", "NamesAB", "LookAB", "OpsAll", "RootsOA"))]},
 }
@@ -336,11 +340,13 @@ STREAM_STAGES = {
     "quick":    [("stream-k3", dict(K=3, MaxD=2, Sigma="SigmaS", Names="NamesS", Roots="RootsOA", HistK=0)),
                  ("stream-k2-history-2", dict(K=2, MaxD=2, Sigma="SigmaS", Names="NamesS", Roots="RootsOA", HistK=2)),
                  ("stream-k4-name-order", dict(K=4, MaxD=2, Sigma="SigmaT", Names="NamesS", Roots="RootsO", HistK=1)),
-                 ("stream-k2-large-alphabet", dict(K=2, MaxD=1, Sigma="SigmaL", Names="NamesS", Roots="RootsOA", HistK=0))],
+                 ("stream-k2-large-alphabet", dict(K=2, MaxD=1, Sigma="SigmaL", Names="NamesS", Roots="RootsOA", HistK=0)),
+                 ("stream-deep-stems", dict(K=3, MaxD=3, Sigma="SigmaD", Names="NamesS", Roots="RootsNone", HistK=0, Stems="DeepStems"))],
     "thorough": [("stream-k4", dict(K=4, MaxD=2, Sigma="SigmaS", Names="NamesS", Roots="RootsOA", HistK=0)),
                  ("stream-k3-history-2", dict(K=3, MaxD=2, Sigma="SigmaS", Names="NamesS", Roots="RootsOA", HistK=2)),
                  ("stream-k5-name-order", dict(K=5, MaxD=2, Sigma="SigmaT", Names="NamesS", Roots="RootsO", HistK=1)),
-                 ("stream-k3-large-alphabet", dict(K=3, MaxD=3, Sigma="SigmaL", Names="NamesS", Roots="RootsOA", HistK=0))],
+                 ("stream-k3-large-alphabet", dict(K=3, MaxD=3, Sigma="SigmaL", Names="NamesS", Roots="RootsOA", HistK=0)),
+                 ("stream-deep-stems", dict(K=4, MaxD=4, Sigma="SigmaD", Names="NamesS", Roots="RootsNone", HistK=0, Stems="DeepStems"))],
 }
 
 
@@ -373,16 +379,21 @@ WRITER_Q = dict(K=2, Alpha="AlphaQ", WithReset="TRUE", AllCaps="TRUE")
 WRITER_T = dict(K=3, Alpha="AlphaQ", WithReset="TRUE", AllCaps="TRUE")
 EXTRA_STAGES = {
     "C12": {"quick": [("reuse-nav", "MC_Nav.tla", "MC_Nav.cfg", _nav(4, 3, "ValsInt1", "NamesAB", "LookAB", "OpsReuse", "RootsOA")),
-                      ("writer-reset", "MC_Writer.tla", "MC_Writer.cfg", WRITER_Q)],
+                      ("writer-reset", "MC_Writer.tla", "MC_Writer.cfg", WRITER_Q),
+                      ("to_string-then-reuse", "MC_ToString.tla", "MC_ToString.cfg", _ts(2, 3, "ValsText", "NamesAB", "FALSE", "TRUE", "RootsOA", "Pres012"))],
             "thorough": [("reuse-nav", "MC_Nav.tla", "MC_Nav.cfg", _nav(5, 3, "ValsMix", "NamesAB", "LookAB", "OpsReuse", "RootsOA")),
-                         ("writer-reset", "MC_Writer.tla", "MC_Writer.cfg", WRITER_T)]},
+                         ("writer-reset", "MC_Writer.tla", "MC_Writer.cfg", WRITER_T),
+                         ("to_string-then-reuse", "MC_ToString.tla", "MC_ToString.cfg", _ts(3, 3, "ValsText", "NamesAB", "FALSE", "TRUE", "RootsOA", "Pres012"))]},
     "C09": {"quick": [("writer-latch", "MC_Writer.tla", "MC_Writer.cfg", WRITER_Q),
                       ("to-writer-latched", "MC_Nav.tla", "MC_Nav.cfg", _nav(3, 3, "ValsInt1", "NamesAB", "LookAB", "OpsNav", "RootsOA"))],
             "thorough": [("writer-latch", "MC_Writer.tla", "MC_Writer.cfg", WRITER_T),
                          ("to-writer-latched", "MC_Nav.tla", "MC_Nav.cfg", _nav(5, 3, "ValsInt1", "NamesAB", "LookAB", "OpsNav", "RootsOA"))]},
+    "C16": {"quick": [("class-wrapper-family-documents", "MC_Class.tla", "MC_Class.cfg", dict(K=1, Sigma="SigmaC", Families="TRUE"))],
+            "thorough": [("class-wrapper-k3", "MC_Class.tla", "MC_Class.cfg", dict(K=3, Sigma="SigmaC", Families="TRUE"))]},
     "C01": {"quick": [("nesting-limits", "MC_Verify.tla", "MC_Verify.cfg", dict(K=0, MaxDs="MaxDsDeep", Sigma="SigmaMid", Deep="TRUE")),
                       ("to_string-then-reuse", "MC_ToString.tla", "MC_ToString.cfg", _ts(2, 3, "ValsText", "NamesAB", "FALSE", "TRUE", "RootsOA", "Pres012"))],
-            "thorough": [("nesting-limits", "MC_Verify.tla", "MC_Verify.cfg", dict(K=0, MaxDs="MaxDsDeep", Sigma="SigmaMid", Deep="TRUE"))]},
+            "thorough": [("nesting-limits", "MC_Verify.tla", "MC_Verify.cfg", dict(K=0, MaxDs="MaxDsDeep", Sigma="SigmaMid", Deep="TRUE")),
+                         ("to_string-then-reuse", "MC_ToString.tla", "MC_ToString.cfg", _ts(3, 3, "ValsText", "NamesAB", "FALSE", "TRUE", "RootsOA", "Pres012"))]},
 }
 
 
@@ -392,7 +403,7 @@ def check_safety(prop, tier, replay):
     t0 = time.time()
     stages = [product_stage(prop, name, "MC_Safety.tla", "MC_Safety.cfg", c) for name, c in SAFETY_STAGES[tier]]
     for name, mod, cfg, c in EXTRA_STAGES.get(prop, {}).get(tier, []):
-        stages.append(product_stage(prop, name, mod, cfg, c, replayer={"MC_Writer.tla": "replay_writer", "MC_ToString.tla": "replay_tostring"}.get(mod, "replay_parser"),
+        stages.append(product_stage(prop, name, mod, cfg, c, replayer={"MC_Writer.tla": "replay_writer", "MC_ToString.tla": "replay_tostring", "MC_Class.tla": "replay_class"}.get(mod, "replay_parser"),
                                     memprop=prop if mod == "MC_ToString.tla" else None))
     stages.append(parser_trace_stage(prop, tier))
     if prop == "C16":
